@@ -160,7 +160,7 @@ Print Assumptions C14_protocol_prefix_closed.
 
 (* the monitor run on recorded traces reports nothing exactly when the strict automaton accepts *)
 Theorem C14_monitor_is_the_automaton : forall t,
-  fst (monitor t) = [] /\ balanced (snd (monitor t)) = true <-> accept t = true.
+  fst (monitor t) = [] /\ balanced (snd (monitor t)) && complete (snd (monitor t)) = true <-> accept t = true.
 Proof. exact monitor_accept. Qed.
 Print Assumptions C14_monitor_is_the_automaton.
 
@@ -172,12 +172,31 @@ Theorem C14_path_before_paint : forall t1 x t2 st' c,
 Proof. exact path_before_paint. Qed.
 Print Assumptions C14_path_before_paint.
 
-(* "fonts are registered before text using them is drawn" *)
+(* "fonts are registered before text using them is drawn": on the SAME canvas (a page
+   and every group returned by NewGroup are separate canvases with their own fonts) *)
 Theorem C14_font_before_text : forall t1 c fs a t2 st' f,
   Protocol.run pinit (t1 ++ CDrawText c fs a :: t2) = Some st' -> In f fs ->
-  exists c', In (CAddFont c' f) t1.
+  In (CAddFont c f) t1.
 Proof. exact font_before_text. Qed.
 Print Assumptions C14_font_before_text.
+
+(* a group is handed to DrawWithOpacity / SetColorPattern / SetAlphaMask of the canvas
+   whose NewGroup created it, and at most once *)
+Theorem C14_group_before_consume : forall t1 x t2 st' c g,
+  call_canvas x = Some c -> call_group x = Some g ->
+  Protocol.run pinit (t1 ++ x :: t2) = Some st' ->
+  exists u a v, t1 = u ++ CNewGroup c g a :: v /\
+                forallb (fun z => negb (consumes_group g z)) v = true.
+Proof. exact group_before_consume. Qed.
+Print Assumptions C14_group_before_consume.
+
+(* no painting is lost: in an accepted trace every group that received a Paint /
+   DrawText / DrawRasterImage / DrawGradient is handed to its parent canvas *)
+Theorem C14_painted_groups_consumed : forall t c g a x,
+  accept t = true -> In (CNewGroup c g a) t -> In x t -> paints g x = true ->
+  exists y, In y t /\ call_group y = Some g.
+Proof. exact accepted_painted_groups_consumed. Qed.
+Print Assumptions C14_painted_groups_consumed.
 
 (* "every number passed is finite" (for an accepted trace: a runtime fact, checked by the monitor) *)
 Theorem C14_accepted_all_finite : forall t st st',
@@ -261,5 +280,12 @@ Example C14_protocol_example :
           CAddFont 1 7; CDrawText 1 [7] (K 5); CMoveTo 1 (K 2); CLineTo 1 (K 2); CPaint 1 1; CPop 1;
           CDoc 0 (K 0)]%N = true
   /\ accept [CAddPage 1 (K 4); CPaint 1 4]%N = false
-  /\ accept [CAddPage 1 (K 4); CMoveTo 1 (Bad [Fin; NaN])]%N = false.
+  /\ accept [CAddPage 1 (K 4); CMoveTo 1 (Bad [Fin; NaN])]%N = false
+  (* text inside an opacity group: the font must be registered on the group canvas *)
+  /\ accept [CAddPage 1 (K 4); CNewGroup 1 2 (K 4); CAddFont 2 7; CDrawText 2 [7] (K 5);
+             CDrawWithOpacity 1 2 (K 1)]%N = true
+  /\ accept [CAddPage 1 (K 4); CNewGroup 1 2 (K 4); CAddFont 1 7; CDrawText 2 [7] (K 5);
+             CDrawWithOpacity 1 2 (K 1)]%N = false
+  (* painting into a group that is never composited *)
+  /\ accept [CAddPage 1 (K 4); CNewGroup 1 2 (K 4); CRect 2 (K 4); CPaint 2 4]%N = false.
 Proof. vm_compute. repeat split; reflexivity. Qed.
